@@ -215,6 +215,26 @@ func c08(raw json.RawMessage, resp *drv.Response) error {
 			}
 			check("exp", gf.EExp(bases[0], new(big.Int).SetUint64(e)))
 		}
+		// prover-supplied values other than the chip's four hints inside the extension gadgets, on operands whose results have small
+		// coordinates (where value + p still fits 64 bits): a/a, 0/b, the inverses of 1 and of 1/2
+		if req.Shard == 0 {
+			half := new(big.Int).Rsh(new(big.Int).Add(bigP, one), 1)
+			small := []gf.E{gf.E1(), {big.NewInt(3), big.NewInt(0)}, {new(big.Int).Set(half), big.NewInt(0)}, {big.NewInt(0), big.NewInt(1)}, randE(rng)}
+			for i, a := range small {
+				b := small[(i+1)%len(small)]
+				flat := []*big.Int{a[0], a[1], b[0], b[1]}
+				foreignProbe(resp, "c08", fmt.Sprintf("div-inverse-%d", i), modeOf(req.Mode), flat, func(api frontend.API, iv []frontend.Variable) error {
+					chip := gl.New(api)
+					x, y := qe(iv, 0), qe(iv, 2)
+					chip.DivExtension(x, x)
+					chip.DivExtension(gl.ZeroExtension(), y)
+					chip.DivExtension(x, y)
+					chip.InverseExtension(x)
+					chip.MulExtension(x, y)
+					return nil
+				})
+			}
+		}
 	case "lists":
 		lens := []int{0, 1, 2, 3, 7, 16, 100, 300}
 		for i := 0; i < 2+req.NRandom; i++ {
